@@ -315,3 +315,47 @@ def expected_status_table():
             else:
                 t[(cur, new)] = (cur, 0)
     return t
+
+
+# ---------------------------------------------------------------------------------------------
+# the final status of a rewrite as propositional atoms
+
+STATUS_EXH = {"is:Status::": list(STATUSES)}
+
+
+def status_atomize(fn, e):
+    """`<..>.status == Status::V`, `matches!(..)` handled by pat_formula; is_modified()-style predicates"""
+    from . import boolform as BF
+
+    e = hir.peel(e)
+    if e.get("k") == "Binary" and e["op"] in ("Eq", "Ne"):
+        sides = [hir.peel_transparent(e["l"]), hir.peel_transparent(e["r"])]
+        ctor = [(x.get("res", {}).get("ctor_path") or "") for x in sides if x.get("k") == "Path"]
+        fld = [x for x in sides if x.get("k") == "Field" and x["field"] == "status"]
+        if fld and ctor and ctor[0].split("::")[-1] in STATUSES:
+            a = BF.atom("is:Status::" + ctor[0].split("::")[-1])
+            return a if e["op"] == "Eq" else BF.neg(a)
+    return None
+
+
+def status_premises(prog, fn, conds):
+    """formulas of the path conditions with Status patterns normalised to the same atoms"""
+    from . import boolform as BF
+
+    out = []
+    for c in conds:
+        if c.get("t") in ("pat", "arm_not") and c.get("scrut") is not None and not (hir.place(c["scrut"]) or "").endswith(".status"):
+            continue
+        f = BF.from_cond(fn, c, status_atomize, prog)
+        out.append(_norm_status(f))
+    return [f for f in out if f != BF.TRUE]
+
+
+def _norm_status(f):
+    if f[0] == "atom" and f[1].startswith("is:") and f[1].split("::")[-1] in STATUSES and "Status" in f[1]:
+        return ("atom", "is:Status::" + f[1].split("::")[-1])
+    if f[0] == "not":
+        return ("not", _norm_status(f[1]))
+    if f[0] in ("and", "or"):
+        return (f[0], tuple(_norm_status(g) for g in f[1]))
+    return f
